@@ -166,6 +166,7 @@ var c20Synth bool
 func c20CheckNodes(src string, root parse.Node) string {
 	e := c20Expectations(src)
 	seenPrint, seenTag := map[int]bool{}, map[int]bool{}
+	anchorQuote, anchorContent := 0, 0 // string literals anchored at their opening quote / at their first content byte
 	var walk func(n parse.Node) string
 	at := func(n parse.Node) (int, string) {
 		p := n.Start()
@@ -278,6 +279,9 @@ func c20CheckNodes(src string, root parse.Node) string {
 			}
 			if e.quotes[off] && strings.HasPrefix(src[off+1:], x.Text) {
 				ok = true
+				anchorQuote++
+			} else if off >= 1 && e.quotes[off-1] {
+				anchorContent++
 			}
 			if off >= 0 && off <= len(src) && strings.HasPrefix(src[off:], x.Text) {
 				// first content byte: must lie inside a string literal
@@ -310,7 +314,13 @@ func c20CheckNodes(src string, root parse.Node) string {
 		}
 		return ""
 	}
-	return walk(root)
+	if msg := walk(root); msg != "" {
+		return msg
+	}
+	if anchorQuote > 0 && anchorContent > 0 {
+		return fmt.Sprintf("%d string literal(s) report the position of their opening quote and %d that of the first byte after it: one tree, two anchors", anchorQuote, anchorContent)
+	}
+	return ""
 }
 
 func offsetOfNode(src string, n parse.Node) int {
